@@ -313,6 +313,7 @@ var specFuncs = map[string]types.Type{
 	"NL": types.Typ[types.Int], "LS": types.Typ[types.Int], "LE": types.Typ[types.Int],
 	"tolower": types.Typ[types.String], "sindex": types.Typ[types.Int], "hasprefix": types.Typ[types.Bool], "sconcat": types.Typ[types.String],
 	"u16": types.Typ[types.Int], "bnd": types.Typ[types.Bool], "vld": types.Typ[types.Bool], "step": types.Typ[types.Int], "runelen": types.Typ[types.Int],
+	"rcount": types.Typ[types.Int], "runeat": types.Typ[types.Int],
 	"lsof": types.Typ[types.Int], "nlb": types.Typ[types.Int], "fmtint": types.Typ[types.String], "unfmtint": types.Typ[types.Int],
 	"skipsp": types.Typ[types.Int], "width": types.Typ[types.Int], "rune": types.Typ[types.Int], "u16w": types.Typ[types.Int],
 	"unicodeIsLetter": types.Typ[types.Bool], "trimspace": types.Typ[types.String], "substr": types.Typ[types.String],
